@@ -2,6 +2,626 @@
 import Mathlib.Algebra.Ring.Defs
 import TjdModel.Autojac.ProgSpec
 import TjdLemmas.AutojacLemmas
-namespace Tjd.Autojac
+namespace Tjd.Autojac.ProgL
+open Tjd Tjd.Autojac
 
-end Tjd.Autojac
+/-! ### folds that append one element per step -/
+section appfold
+variable {β γ : Type}
+
+/-- `foldl` appending `f acc x` to the accumulator at every step -/
+def appFold (f : List β → γ → β) (xs : List γ) (init : List β) : List β :=
+  xs.foldl (fun acc x => acc ++ [f acc x]) init
+
+theorem appFold_nil (f : List β → γ → β) (init : List β) : appFold f [] init = init := rfl
+
+theorem appFold_cons (f : List β → γ → β) (x : γ) (xs : List γ) (init : List β) :
+    appFold f (x :: xs) init = appFold f xs (init ++ [f init x]) := rfl
+
+theorem appFold_append (f : List β → γ → β) (xs ys : List γ) (init : List β) :
+    appFold f (xs ++ ys) init = appFold f ys (appFold f xs init) := by
+  unfold appFold
+  rw [List.foldl_append]
+
+theorem appFold_length (f : List β → γ → β) (xs : List γ) (init : List β) :
+    (appFold f xs init).length = init.length + xs.length := by
+  induction xs generalizing init with
+  | nil => simp [appFold_nil]
+  | cons x xs ih =>
+    rw [appFold_cons, ih]
+    simp only [List.length_append, List.length_cons, List.length_nil]
+    omega
+
+theorem appFold_prefix (f : List β → γ → β) (xs : List γ) (init : List β) :
+    init <+: appFold f xs init := by
+  induction xs generalizing init with
+  | nil => exact List.prefix_refl _
+  | cons x xs ih =>
+    rw [appFold_cons]
+    exact List.IsPrefix.trans (List.prefix_append _ _) (ih _)
+
+theorem appFold_take_prefix (f : List β → γ → β) (xs : List γ) (init : List β) (k : Nat) :
+    appFold f (xs.take k) init <+: appFold f xs init := by
+  conv => rhs; rw [← List.take_append_drop k xs]
+  rw [appFold_append]
+  exact appFold_prefix _ _ _
+
+theorem appFold_take_length (f : List β → γ → β) (xs : List γ) (k : Nat) (hk : k ≤ xs.length) :
+    (appFold f (xs.take k) []).length = k := by
+  rw [appFold_length]
+  simp [Nat.min_eq_left hk]
+
+theorem getElem?_of_prefix {l₁ l₂ : List β} (h : l₁ <+: l₂) (k : Nat) (hk : k < l₁.length) :
+    l₂[k]? = l₁[k]? := by
+  obtain ⟨t, rfl⟩ := h
+  exact List.getElem?_append_left hk
+
+theorem getD_of_prefix {l₁ l₂ : List β} (h : l₁ <+: l₂) (k : Nat) (hk : k < l₁.length) (d : β) :
+    l₂.getD k d = l₁.getD k d := by
+  rw [List.getD_eq_getElem?_getD, List.getD_eq_getElem?_getD, getElem?_of_prefix h k hk]
+
+/-- the `k`-th element of an append-fold is computed from the fold over the first `k` inputs -/
+theorem appFold_getElem? (f : List β → γ → β) (xs : List γ) (k : Nat) (hk : k < xs.length) :
+    (appFold f xs [])[k]? = some (f (appFold f (xs.take k) []) xs[k]) := by
+  have hpre := appFold_take_prefix f xs [] (k + 1)
+  have hlen : (appFold f (xs.take k) []).length = k := appFold_take_length f xs k (by omega)
+  rw [List.take_succ_eq_append_getElem hk, appFold_append, appFold_cons, appFold_nil] at hpre
+  rw [getElem?_of_prefix hpre k (by simp [hlen])]
+  rw [List.getElem?_append_right (by omega), hlen]
+  simp
+
+theorem appFold_getD (f : List β → γ → β) (xs : List γ) (k : Nat) (hk : k < xs.length) (d : β) :
+    (appFold f xs []).getD k d = f (appFold f (xs.take k) []) xs[k] := by
+  rw [List.getD_eq_getElem?_getD, appFold_getElem? f xs k hk]
+  rfl
+
+theorem appFold_getD_ge (f : List β → γ → β) (xs : List γ) (k : Nat) (hk : xs.length ≤ k) (d : β) :
+    (appFold f xs []).getD k d = d := by
+  rw [List.getD_eq_getElem?_getD, List.getElem?_eq_none (by rw [appFold_length]; simpa using hk)]
+  rfl
+
+end appfold
+
+/-! ### `Prog.infos` and `Prog.deriv` as append-folds -/
+section prog
+variable {α : Type} [Semiring α]
+
+/-- the default node info used by the model -/
+def dflt : NodeInfo α := ⟨0, 0, false, false, []⟩
+
+/-- one step of `Prog.infos` -/
+def infoStep (acc : List (NodeInfo α)) (nd : PNode α) : NodeInfo α :=
+  match nd with
+  | .leaf n d rg vals => ⟨n, d, rg, true, vals⟩
+  | .aff n d srcs c =>
+    ⟨n, d, srcs.any fun s => (acc.getD s.1 dflt).rg, false,
+      srcs.foldl (fun v (s : Nat × Mat α) => vadd v (matVec s.2 (acc.getD s.1 dflt).vals)) c⟩
+  | .mul a b =>
+    ⟨(acc.getD a dflt).numel, (acc.getD a dflt).ndim, (acc.getD a dflt).rg || (acc.getD b dflt).rg,
+      false, List.zipWith (· * ·) (acc.getD a dflt).vals (acc.getD b dflt).vals⟩
+  | .detach a => ⟨(acc.getD a dflt).numel, (acc.getD a dflt).ndim, false, true, (acc.getD a dflt).vals⟩
+
+theorem infos_eq (p : Prog α) : p.infos = appFold infoStep p [] := rfl
+
+/-- one step of `Prog.deriv` -/
+def derivStep (infos : List (NodeInfo α)) (i : Nat) (acc : List (Option (Mat α)))
+    (ndx : PNode α × Nat) : Option (Mat α) :=
+  if ndx.2 = i then some (ident (infos.getD i dflt).numel)
+  else if ndx.2 < i then none
+  else match ndx.1 with
+    | .leaf .. => none
+    | .detach _ => none
+    | .aff _ _ srcs _ =>
+      srcs.foldl (fun (d : Option (Mat α)) (s : Nat × Mat α) =>
+        optAdd d ((acc.getD s.1 none).map fun D => mmul (infos.getD i dflt).numel s.2 D)) none
+    | .mul a b =>
+      optAdd ((acc.getD a none).map fun D => rowScale (infos.getD b dflt).vals D)
+             ((acc.getD b none).map fun D => rowScale (infos.getD a dflt).vals D)
+
+theorem deriv_eq (p : Prog α) (infos : List (NodeInfo α)) (i : Nat) :
+    p.deriv infos i = appFold (derivStep infos i) p.zipIdx [] := rfl
+
+/-- accumulator of `Prog.infos` when node `n` is processed -/
+def infosAcc (p : Prog α) (n : Nat) : List (NodeInfo α) := appFold infoStep (p.take n) []
+
+/-- accumulator of `Prog.deriv` when node `n` is processed -/
+def derivAcc (p : Prog α) (infos : List (NodeInfo α)) (i n : Nat) : List (Option (Mat α)) :=
+  appFold (derivStep infos i) (p.zipIdx.take n) []
+
+theorem infos_length (p : Prog α) : p.infos.length = p.length := by
+  rw [infos_eq, appFold_length]; simp
+
+theorem deriv_length (p : Prog α) (infos : List (NodeInfo α)) (i : Nat) :
+    (p.deriv infos i).length = p.length := by
+  rw [deriv_eq, appFold_length]; simp
+
+theorem infos_getD (p : Prog α) (n : Nat) (hn : n < p.length) :
+    p.infos.getD n dflt = infoStep (infosAcc p n) p[n] := by
+  rw [infos_eq, appFold_getD infoStep p n hn]; rfl
+
+theorem infosAcc_getD (p : Prog α) (n k : Nat) (hn : n ≤ p.length) (hk : k < n) :
+    (infosAcc p n).getD k dflt = p.infos.getD k dflt := by
+  rw [infos_eq]
+  exact (getD_of_prefix (appFold_take_prefix infoStep p [] n) k
+    (by rw [appFold_take_length _ _ _ hn]; exact hk) _).symm
+
+theorem deriv_getD (p : Prog α) (infos : List (NodeInfo α)) (i n : Nat) (hn : n < p.length) :
+    (p.deriv infos i).getD n none = derivStep infos i (derivAcc p infos i n) (p[n], n) := by
+  rw [deriv_eq, appFold_getD (derivStep infos i) p.zipIdx n (by simpa using hn)]
+  simp [derivAcc, List.getElem_zipIdx]
+
+theorem deriv_getD_ge (p : Prog α) (infos : List (NodeInfo α)) (i n : Nat) (hn : p.length ≤ n) :
+    (p.deriv infos i).getD n none = none := by
+  rw [deriv_eq, appFold_getD_ge _ _ _ (by simpa using hn)]
+
+theorem derivAcc_getD (p : Prog α) (infos : List (NodeInfo α)) (i n k : Nat) (hn : n ≤ p.length)
+    (hk : k < n) : (derivAcc p infos i n).getD k none = (p.deriv infos i).getD k none := by
+  rw [deriv_eq]
+  exact (getD_of_prefix (appFold_take_prefix (derivStep infos i) p.zipIdx [] n) k
+    (by rw [appFold_take_length _ _ _ (by simpa using hn)]; exact hk) _).symm
+
+theorem derivAcc_getD_ge (p : Prog α) (infos : List (NodeInfo α)) (i n k : Nat) (hn : n ≤ p.length)
+    (hk : n ≤ k) : (derivAcc p infos i n).getD k none = none := by
+  unfold derivAcc
+  rw [appFold_getD_ge]
+  rw [List.length_take, List.length_zipIdx]
+  omega
+
+/-! ### the engine of a program -/
+
+theorem engine_numel (p : Prog α) (k : Nat) :
+    (p.engine).1.numel k = (p.infos.getD k dflt).numel := rfl
+
+theorem engine_jac_lt (p : Prog α) (o i : Nat) (hi : i < p.length) :
+    (p.engine).1.jac o i = (p.deriv p.infos i).getD o none := by
+  show (((List.range p.length).map fun i => p.deriv p.infos i).getD i []).getD o none = _
+  rw [range_map_getD_lt _ _ _ _ hi]
+
+theorem engine_jac_ge (p : Prog α) (o i : Nat) (hi : p.length ≤ i) :
+    (p.engine).1.jac o i = none := by
+  show (((List.range p.length).map fun i => p.deriv p.infos i).getD i []).getD o none = _
+  have h : ((List.range p.length).map fun i => p.deriv p.infos i).getD i [] = [] := by
+    rw [List.getD_eq_getElem?_getD, List.getElem?_eq_none (by simpa using hi)]
+    rfl
+  rw [h]
+  rfl
+
+theorem engine_self (p : Prog α) (i : Nat) (hi : i < p.length) :
+    (p.engine).1.jac i i = some (ident ((p.engine).1.numel i)) := by
+  rw [engine_jac_lt p i i hi, deriv_getD _ _ _ _ hi, engine_numel]
+  simp [derivStep]
+
+theorem engine_leaf (p : Prog α) (o i : Nat) (ho : o < p.length) (hne : o ≠ i)
+    (hleaf : ∃ n d rg vals, p.getD o (.detach 0) = .leaf n d rg vals) :
+    (p.engine).1.jac o i = none := by
+  by_cases hi : i < p.length
+  · rw [engine_jac_lt p o i hi, deriv_getD _ _ _ _ ho]
+    obtain ⟨n, d, rg, vals, h⟩ := hleaf
+    have h' : p[o] = .leaf n d rg vals := by
+      rw [← h, List.getD_eq_getElem?_getD, List.getElem?_eq_getElem ho]; rfl
+    simp [derivStep, hne, h']
+  · exact engine_jac_ge p o i (by omega)
+
+end prog
+/-! ### linear algebra for the chain rule -/
+section chain
+variable {α : Type} [Semiring α]
+
+theorem combine_zeros (n k : Nat) (B : Mat α) (hB : ∀ row ∈ B, row.length = n) :
+    combine n B (zeros k : Vec α) = zeros n := by
+  apply vsum_all_zeros
+  intro x hx
+  rw [List.mem_iff_getElem] at hx
+  obtain ⟨j, hj, rfl⟩ := hx
+  simp only [List.getElem_zipWith, zeros, List.getElem_replicate]
+  rw [zero_smul_vec, hB _ (List.getElem_mem _)]
+  rfl
+
+theorem combine_vsum (n k : Nat) (B : Mat α) (xs : List (Vec α)) (hB : ∀ row ∈ B, row.length = n)
+    (hx : ∀ x ∈ xs, x.length = k) :
+    combine n B (vsum k xs) = vsum n (xs.map (combine n B)) := by
+  induction xs with
+  | nil => simp [vsum_nil, combine_zeros n k B hB]
+  | cons x xs ih =>
+    have hxs : ∀ y ∈ xs, y.length = k := fun y hy => hx y (by simp [hy])
+    rw [vsum_cons, List.map_cons, vsum_cons,
+      combine_vadd n B _ _ (by rw [hx x (by simp), vsum_length k xs hxs]) hB, ih hxs]
+
+theorem combine_combine (n k : Nat) (A B : Mat α) (c : Vec α) (hA : ∀ row ∈ A, row.length = k)
+    (hB : ∀ row ∈ B, row.length = n) :
+    combine n B (combine k A c) = combine n (mmulL n A B) c := by
+  induction A generalizing c with
+  | nil => simp [mmulL, combine_nil_left, combine_zeros n k B hB]
+  | cons a A ih =>
+    have hA' : ∀ row ∈ A, row.length = k := fun r hr => hA r (by simp [hr])
+    cases c with
+    | nil => simp [combine_nil_right, combine_zeros n k B hB]
+    | cons x c =>
+      have hm : mmulL n (a :: A) B = combine n B a :: mmulL n A B := rfl
+      rw [combine_cons, hm, combine_cons,
+        combine_vadd n B _ _ (by rw [smul_length, hA a (by simp), combine_length k A c hA']) hB,
+        combine_smul n B x a hB, ih c hA']
+
+theorem mmulL_rows (n : Nat) (A B : Mat α) (hB : ∀ row ∈ B, row.length = n) :
+    ∀ row ∈ mmulL n A B, row.length = n := by
+  intro row hrow
+  obtain ⟨a, _, rfl⟩ := List.mem_map.mp hrow
+  exact combine_length n B a hB
+
+theorem mmulL_length (n : Nat) (A B : Mat α) : (mmulL n A B).length = A.length := by
+  simp [mmulL]
+
+theorem vsum_exchange {ρ σ : Type} (n : Nat) (xs : List ρ) (ys : List σ) (F : ρ → σ → Vec α)
+    (hF : ∀ x y, (F x y).length = n) :
+    vsum n (xs.map fun x => vsum n (ys.map fun y => F x y)) =
+      vsum n (ys.map fun y => vsum n (xs.map fun x => F x y)) := by
+  induction xs with
+  | nil =>
+    symm
+    apply vsum_all_zeros
+    intro x hx
+    obtain ⟨y, _, rfl⟩ := List.mem_map.mp hx
+    rfl
+  | cons x xs ih =>
+    rw [List.map_cons, vsum_cons, ih, ← vsum_zipWith_vadd n _ _ (by simp)
+      (by intro v hv; obtain ⟨y, _, rfl⟩ := List.mem_map.mp hv; exact hF x y)
+      (by
+        intro v hv
+        obtain ⟨y, _, rfl⟩ := List.mem_map.mp hv
+        apply vsum_length
+        intro w hw
+        obtain ⟨x', _, rfl⟩ := List.mem_map.mp hw
+        exact hF x' y)]
+    rw [List.zipWith_map_left, List.zipWith_map_right, List.zipWith_self]
+    congr 1
+    apply List.map_congr_left
+    intro y _
+    rw [List.map_cons, vsum_cons]
+
+theorem madd_comm (A B : Mat α) : madd A B = madd B A := by
+  unfold madd
+  exact List.zipWith_comm_of_comm (fun a b => vadd_comm a b)
+
+theorem madd_assoc (A B C : Mat α) : madd (madd A B) C = madd A (madd B C) := by
+  induction A generalizing B C with
+  | nil => simp [madd]
+  | cons a A ih =>
+    cases B with
+    | nil => simp [madd]
+    | cons b B =>
+      cases C with
+      | nil => simp [madd]
+      | cons c C =>
+        have := ih B C
+        simp only [madd] at this ⊢
+        simp [vadd_assoc, this]
+
+theorem madd_length (A B : Mat α) : (madd A B).length = min A.length B.length := by
+  simp [madd]
+
+theorem foldl_madd (A B : Mat α) (Ms : List (Mat α)) :
+    List.foldl madd (madd A B) Ms = madd A (List.foldl madd B Ms) := by
+  induction Ms generalizing B with
+  | nil => rfl
+  | cons M Ms ih => simp only [List.foldl_cons, madd_assoc, ih]
+
+theorem msumL_nil (r n : Nat) : msumL r n ([] : List (Mat α)) = List.replicate r (zeros n) := rfl
+
+theorem msumL_cons (r n : Nat) (M : Mat α) (Ms : List (Mat α)) :
+    msumL r n (M :: Ms) = madd M (msumL r n Ms) := by
+  unfold msumL
+  rw [List.foldl_cons, madd_comm, foldl_madd]
+
+theorem msumL_length (r n : Nat) (Ms : List (Mat α)) (h : ∀ M ∈ Ms, M.length = r) :
+    (msumL r n Ms).length = r := by
+  induction Ms with
+  | nil => simp [msumL_nil]
+  | cons M Ms ih =>
+    rw [msumL_cons, madd_length, h M (by simp), ih (fun M' hM' => h M' (by simp [hM']))]
+    simp
+
+theorem combine_madd (n : Nat) (A B : Mat α) (c : Vec α) (hl : A.length = B.length) :
+    combine n (madd A B) c = vadd (combine n A c) (combine n B c) := by
+  induction A generalizing B c with
+  | nil =>
+    cases B with
+    | nil =>
+      have : madd ([] : Mat α) [] = [] := rfl
+      rw [this, combine_nil_left, vadd_zeros _ n (by simp)]
+    | cons b B => simp at hl
+  | cons a A ih =>
+    cases B with
+    | nil => simp at hl
+    | cons b B =>
+      cases c with
+      | nil => rw [combine_nil_right, combine_nil_right, combine_nil_right, vadd_zeros _ n (by simp)]
+      | cons x c =>
+        have : madd (a :: A) (b :: B) = vadd a b :: madd A B := rfl
+        rw [this, combine_cons, combine_cons, combine_cons, ih B c (by simpa using hl), smul_vadd]
+        rw [vadd_assoc, vadd_assoc]
+        congr 1
+        rw [← vadd_assoc, ← vadd_assoc, vadd_comm (smul x b)]
+
+theorem combine_msumL (r n : Nat) (Ms : List (Mat α)) (c : Vec α) (h : ∀ M ∈ Ms, M.length = r) :
+    combine n (msumL r n Ms) c = vsum n (Ms.map fun M => combine n M c) := by
+  induction Ms with
+  | nil =>
+    rw [msumL_nil, List.map_nil, vsum_nil]
+    apply combine_zero_rows
+    intro row hrow
+    exact (List.mem_replicate.mp hrow).2
+  | cons M Ms ih =>
+    have h' : ∀ M' ∈ Ms, M'.length = r := fun M' hM' => h M' (by simp [hM'])
+    rw [msumL_cons, List.map_cons, vsum_cons,
+      combine_madd n M _ c (by rw [h M (by simp), msumL_length r n Ms h']), ih h']
+
+theorem zip_map_self {ρ σ : Type} (l : List ρ) (g : ρ → σ) :
+    List.zip l (l.map g) = l.map fun x => (x, g x) := by
+  induction l with
+  | nil => rfl
+  | cons x l ih => simp [ih]
+
+/-- the chain rule through a cut, for vector–Jacobian products -/
+theorem vjp_chain' (E : Engine α) (hE : E.WF) (outs mids ins : List Key)
+    (hcut : E.CutBy outs mids ins) (cots : List (Vec α)) (i : Key) (hi : i ∈ ins) :
+    materialize E i (E.vjp1 mids (mids.map fun f => materialize E f (E.vjp1 outs cots f)) i) =
+      materialize E i (E.vjp1 outs cots i) := by
+  have h1 : ∀ f, vecMat (E.numel i) (materialize E f (E.vjp1 outs cots f)) (E.block f i) =
+      vsum (E.numel i) ((List.zip outs cots).map fun oc =>
+        vecMat (E.numel i) oc.2 (mmulL (E.numel i) (E.block oc.1 f) (E.block f i))) := by
+    intro f
+    rw [vjp1_spec E hE]
+    unfold vecMat
+    rw [combine_vsum _ (E.numel f) _ _ (block_rows E hE f i)
+      (by
+        intro x hx
+        obtain ⟨oc, _, rfl⟩ := List.mem_map.mp hx
+        exact vecMat_length E hE _ _ _), List.map_map]
+    congr 1
+    apply List.map_congr_left
+    intro oc _
+    exact combine_combine _ _ _ _ _ (block_rows E hE oc.1 f) (block_rows E hE f i)
+  have h2 : ∀ oc ∈ List.zip outs cots, vecMat (E.numel i) oc.2 (E.block oc.1 i) =
+      vsum (E.numel i) (mids.map fun f =>
+        vecMat (E.numel i) oc.2 (mmulL (E.numel i) (E.block oc.1 f) (E.block f i))) := by
+    intro oc hoc
+    rw [hcut oc.1 (List.of_mem_zip hoc).1 i hi]
+    unfold vecMat
+    rw [combine_msumL _ _ _ _
+      (by
+        intro M hM
+        obtain ⟨f, _, rfl⟩ := List.mem_map.mp hM
+        rw [mmulL_length, block_length E hE]), List.map_map]
+    rfl
+  rw [vjp1_spec E hE, vjp1_spec E hE outs cots i, zip_map_self, List.map_map,
+    List.map_congr_left h2]
+  have h3 : ((fun (oc : Key × Vec α) => vecMat (E.numel i) oc.2 (E.block oc.1 i)) ∘
+      fun f => (f, materialize E f (E.vjp1 outs cots f))) =
+      fun f => vsum (E.numel i) ((List.zip outs cots).map fun oc =>
+        vecMat (E.numel i) oc.2 (mmulL (E.numel i) (E.block oc.1 f) (E.block f i))) := by
+    funext f
+    exact h1 f
+  rw [h3]
+  exact vsum_exchange (E.numel i) mids (List.zip outs cots)
+    (fun f oc => vecMat (E.numel i) oc.2 (mmulL (E.numel i) (E.block oc.1 f) (E.block f i)))
+    (fun f oc => combine_length _ _ _ (mmulL_rows _ _ _ (block_rows E hE f i)))
+
+end chain
+
+/-! ### shapes of the derivative blocks of a program -/
+section wf
+variable {α : Type} [Semiring α]
+
+def Shape (M : Mat α) (r c : Nat) : Prop := M.length = r ∧ ∀ row ∈ M, row.length = c
+
+def OShape (o : Option (Mat α)) (r c : Nat) : Prop := ∀ M, o = some M → Shape M r c
+
+omit [Semiring α] in
+theorem oshape_none (r c : Nat) : OShape (none : Option (Mat α)) r c := by
+  intro M h; cases h
+
+theorem shape_ident (m : Nat) : Shape (ident m : Mat α) m m := by
+  constructor
+  · simp [ident]
+  · intro row hrow
+    obtain ⟨j, _, rfl⟩ := List.mem_map.mp hrow
+    simp
+
+theorem shape_mmul (c : Nat) (A D : Mat α) (hD : ∀ row ∈ D, row.length = c) :
+    Shape (mmul c A D) A.length c := by
+  constructor
+  · simp [mmul]
+  · intro row hrow
+    obtain ⟨a, _, rfl⟩ := List.mem_map.mp hrow
+    exact combine_length c D a hD
+
+theorem shape_rowScale (d : Vec α) (M : Mat α) (r c : Nat) (hd : d.length = r) (hM : Shape M r c) :
+    Shape (rowScale d M) r c := by
+  constructor
+  · simp [rowScale, hd, hM.1]
+  · intro row hrow
+    unfold rowScale at hrow
+    rw [List.mem_iff_getElem] at hrow
+    obtain ⟨j, hj, rfl⟩ := hrow
+    simp only [List.getElem_zipWith, smul_length]
+    exact hM.2 _ (List.getElem_mem _)
+
+theorem shape_madd (A B : Mat α) (r c : Nat) (hA : Shape A r c) (hB : Shape B r c) :
+    Shape (madd A B) r c := by
+  constructor
+  · simp [madd, hA.1, hB.1]
+  · intro row hrow
+    unfold madd at hrow
+    rw [List.mem_iff_getElem] at hrow
+    obtain ⟨j, hj, rfl⟩ := hrow
+    simp only [List.getElem_zipWith, vadd_length]
+    rw [hA.2 _ (List.getElem_mem _), hB.2 _ (List.getElem_mem _)]
+    simp
+
+theorem oshape_optAdd (a b : Option (Mat α)) (r c : Nat) (ha : OShape a r c) (hb : OShape b r c) :
+    OShape (optAdd a b) r c := by
+  cases a with
+  | none => simpa [optAdd] using hb
+  | some A =>
+    cases b with
+    | none => simpa [optAdd] using ha
+    | some B =>
+      intro M hM
+      simp only [optAdd, Option.some.injEq] at hM
+      subst hM
+      exact shape_madd A B r c (ha A rfl) (hb B rfl)
+
+theorem oshape_foldl {σ : Type} (srcs : List σ) (g : σ → Option (Mat α)) (r c : Nat)
+    (init : Option (Mat α)) (h0 : OShape init r c) (hg : ∀ s ∈ srcs, OShape (g s) r c) :
+    OShape (srcs.foldl (fun d s => optAdd d (g s)) init) r c := by
+  induction srcs generalizing init with
+  | nil => exact h0
+  | cons s srcs ih =>
+    rw [List.foldl_cons]
+    exact ih _ (oshape_optAdd _ _ r c h0 (hg s (by simp))) (fun s' hs' => hg s' (by simp [hs']))
+
+omit [Semiring α] in
+theorem oshape_map (o : Option (Mat α)) (F : Mat α → Mat α) (r c r' c' : Nat) (ho : OShape o r c)
+    (hF : ∀ D, Shape D r c → Shape (F D) r' c') : OShape (o.map F) r' c' := by
+  cases o with
+  | none => exact oshape_none r' c'
+  | some D =>
+    intro M hM
+    simp only [Option.map_some, Option.some.injEq] at hM
+    subst hM
+    exact hF D (ho D rfl)
+
+theorem foldl_vadd_length {σ : Type} (n : Nat) (srcs : List σ) (g : σ → Vec α) (c : Vec α)
+    (hc : c.length = n) (hg : ∀ s ∈ srcs, (g s).length = n) :
+    (srcs.foldl (fun v s => vadd v (g s)) c).length = n := by
+  induction srcs generalizing c with
+  | nil => exact hc
+  | cons s srcs ih =>
+    rw [List.foldl_cons]
+    exact ih _ (by rw [vadd_length, hc, hg s (by simp)]; simp) (fun s' hs' => hg s' (by simp [hs']))
+
+theorem matVec_length (J : Mat α) (v : Vec α) : (matVec J v).length = J.length := by
+  simp [matVec]
+
+omit [Semiring α] in
+theorem prog_getD (p : Prog α) (n : Nat) (hn : n < p.length) : p.getD n (.detach 0) = p[n] := by
+  rw [List.getD_eq_getElem?_getD, List.getElem?_eq_getElem hn]; rfl
+
+/-- `Prog.WF` restated with `dflt` and `p[n]` -/
+theorem wf_at (p : Prog α) (hp : p.WF) (n : Nat) (hn : n < p.length) :
+    (p[n]).WFAt n (fun k => (p.infos.getD k dflt).numel) := by
+  have h := hp n hn
+  rw [prog_getD p n hn] at h
+  exact h
+
+/-- the values of every node have as many entries as its `numel` -/
+theorem info_vals_length (p : Prog α) (hp : p.WF) (n : Nat) (hn : n < p.length) :
+    (p.infos.getD n dflt).vals.length = (p.infos.getD n dflt).numel := by
+  induction n using Nat.strong_induction_on with
+  | _ n ih =>
+    have hw := wf_at p hp n hn
+    rw [infos_getD p n hn]
+    cases hnode : p[n] with
+    | leaf n' d rg vals =>
+      rw [hnode] at hw
+      exact hw
+    | aff n' d srcs c =>
+      rw [hnode] at hw
+      obtain ⟨hc, hs⟩ := hw
+      show (srcs.foldl (fun v (s : Nat × Mat α) =>
+        vadd v (matVec s.2 ((infosAcc p n).getD s.1 dflt).vals)) c).length = n'
+      apply foldl_vadd_length n' srcs _ c hc
+      intro s hsm
+      rw [matVec_length]
+      exact (hs s hsm).2.1
+    | mul a b =>
+      rw [hnode] at hw
+      obtain ⟨ha, hb, hab⟩ := hw
+      show (List.zipWith (· * ·) ((infosAcc p n).getD a dflt).vals
+        ((infosAcc p n).getD b dflt).vals).length = ((infosAcc p n).getD a dflt).numel
+      rw [infosAcc_getD p n a (by omega) ha, infosAcc_getD p n b (by omega) hb,
+        List.length_zipWith, ih a ha (by omega), ih b hb (by omega)]
+      simp only [] at hab
+      rw [hab]
+      simp
+    | detach a =>
+      rw [hnode] at hw
+      show ((infosAcc p n).getD a dflt).vals.length = ((infosAcc p n).getD a dflt).numel
+      have ha : a < n := hw
+      rw [infosAcc_getD p n a (by omega) ha]
+      exact ih a ha (by omega)
+
+/-- every derivative entry has the shape `numel n × numel i` -/
+theorem deriv_shape (p : Prog α) (hp : p.WF) (i n : Nat) (hn : n < p.length) :
+    OShape ((p.deriv p.infos i).getD n none) (p.infos.getD n dflt).numel
+      (p.infos.getD i dflt).numel := by
+  induction n using Nat.strong_induction_on with
+  | _ n ih =>
+    have hw := wf_at p hp n hn
+    have hacc : ∀ k, k < n → OShape ((derivAcc p p.infos i n).getD k none)
+        (p.infos.getD k dflt).numel (p.infos.getD i dflt).numel := by
+      intro k hk
+      rw [derivAcc_getD p p.infos i n k (by omega) hk]
+      exact ih k hk (by omega)
+    rw [deriv_getD p p.infos i n hn]
+    by_cases h1 : n = i
+    · subst h1
+      simp only [derivStep, if_true]
+      intro M hM
+      simp only [Option.some.injEq] at hM
+      subst hM
+      exact shape_ident _
+    by_cases h2 : n < i
+    · simp only [derivStep, h1, h2, if_true, if_false]
+      exact oshape_none _ _
+    rw [infos_getD p n hn]
+    cases hnode : p[n] with
+    | leaf n' d rg vals =>
+      simp only [derivStep, h1, h2, if_false]
+      exact oshape_none _ _
+    | detach a =>
+      simp only [derivStep, h1, h2, if_false]
+      exact oshape_none _ _
+    | aff n' d srcs c =>
+      rw [hnode] at hw
+      obtain ⟨hc, hs⟩ := hw
+      simp only [derivStep, h1, h2, if_false]
+      show OShape _ n' _
+      apply oshape_foldl srcs _ n' _ none (oshape_none _ _)
+      intro s hsm
+      obtain ⟨hlt, hlen, _⟩ := hs s hsm
+      apply oshape_map _ _ _ _ _ _ (hacc s.1 hlt)
+      intro D hD
+      rw [← hlen]
+      exact shape_mmul _ s.2 D hD.2
+    | mul a b =>
+      rw [hnode] at hw
+      obtain ⟨ha, hb, hab⟩ := hw
+      simp only [] at hab
+      simp only [derivStep, h1, h2, if_false]
+      show OShape _ ((infosAcc p n).getD a dflt).numel _
+      rw [infosAcc_getD p n a (by omega) ha]
+      apply oshape_optAdd
+      · apply oshape_map _ _ _ _ _ _ (hacc a ha)
+        intro D hD
+        exact shape_rowScale _ D _ _ (by rw [info_vals_length p hp b (by omega), hab]) hD
+      · apply oshape_map _ _ _ _ _ _ (hacc b hb)
+        intro D hD
+        rw [hab]
+        exact shape_rowScale _ D _ _ (by rw [info_vals_length p hp a (by omega), hab]) (hab ▸ hD)
+
+theorem engine_wf (p : Prog α) (hp : p.WF) : (p.engine).1.WF := by
+  intro (o : Nat) (i : Nat) M hM
+  by_cases hi : i < p.length
+  · rw [engine_jac_lt p o i hi] at hM
+    by_cases ho : o < p.length
+    · rw [engine_numel, engine_numel]
+      exact deriv_shape p hp i o ho M hM
+    · rw [deriv_getD_ge p _ i o (by omega)] at hM
+      cases hM
+  · rw [engine_jac_ge p o i (by omega)] at hM
+    cases hM
+
+end wf
+
+end Tjd.Autojac.ProgL
